@@ -10,6 +10,13 @@
        grounded fix-point and the MaximalExtensionComputer loops.
      - C01_good_view_compact / C01_good_view_store: the premise [view_good] holds for the views the
        solvers are actually run on.
+     - C01_good_view_iccma: it also holds for the store the ICCMA reader path (and the
+       correspondence driver, driver/d_static.ml:build_fw) builds: n distinct labels, then one
+       [new_attack_by_ids] per attack line over ids < n, REPEATED LINES AND SELF-ATTACKS KEPT (such
+       stores are outside [reachable], which has no duplicate attack).  The store denotes exactly
+       the compact framework of the lines ([af_of f = compact n lines], same order, same
+       multiplicities) and its view is a good view of it, so C01_single_extension and every other
+       whole-framework theorem applies to it (Proofs/TopGaps.v: run_query_iccma).
      - C01_stable_component_partial (kept): the per-component step of the stable solver.
    NOT proved in Coq (by design): that the Rust code behaves like Model.Solvers (this is the
    tie: trace replay on every run), and the translation of ids to labels.  Termination and fuel:
@@ -17,7 +24,9 @@
    Vocabulary of the whole-framework theorems (Proofs/TopBase.v, TopMax.v, SolverTop.v):
      view_good g F   the view g (iteration orders of an AAFramework) presents the framework F;
                      instances: view_of_af of any compact framework, view_of_fw of any store
-                     reachable from new_with_labels by any update history (C01_good_view_compact, C01_good_view_store);
+                     reachable from new_with_labels by any update history, view_of_fw of any store
+                     built by new_attack_by_ids from new_with_labels (C01_good_view_compact,
+                     C01_good_view_store, C01_good_view_iccma);
      supported s q   the trait implementation exists (all but CO-SE, CO-DS, PR-DC, for which the
                      library delegates to another solver type and the model has no entry point);
      enc_ok s e      the encoder may be used with the solver type (CO, SST: complete-based; STG:
@@ -28,7 +37,7 @@
 From Crusta Require Import Spec.AF Sat.Cnf Sat.Prog Model.Store Model.Encoders Model.Graph Model.Solvers.
 From Crusta Require Import Proofs.EncSpec Proofs.SolverBasics Proofs.SolverThms.
 From Crusta Require Import Proofs.TopBase Proofs.TopMax Proofs.SolverTop.
-From Crusta Require Proofs.GroundedProofs.
+From Crusta Require Proofs.GroundedProofs Proofs.TopGaps.
 
 Theorem C01_stable_component_partial : forall oracle thr, 1 <= thr -> valid_oracle oracle ->
   forall c n, compact_af (c_af c) n ->
@@ -60,7 +69,18 @@ Theorem C01_good_view_store : forall L (leqb : L -> L -> bool),
   view_good (view_of_fw f) (GroundedProofs.af_of L f).
 Proof. exact TopBase.view_good_store. Qed.
 
+Theorem C01_good_view_iccma : forall L (leqb : L -> L -> bool),
+  (forall x y, leqb x y = true <-> x = y) ->
+  forall (labels : list L) (lines : list (nat * nat)),
+  NoDup labels -> atts_ok (length labels) lines ->
+  let f := fold_left (fun f p => fst (new_attack_by_ids L f (fst p) (snd p))) lines
+                     (fw_new_with_labels L leqb labels) in
+  let F := compact (length labels) lines in
+  compact_af F (length labels) /\ GroundedProofs.af_of L f = F /\ view_good (view_of_fw f) F.
+Proof. exact TopGaps.iccma_store_good. Qed.
+
 Print Assumptions C01_stable_component_partial.
 Print Assumptions C01_single_extension.
 Print Assumptions C01_good_view_compact.
 Print Assumptions C01_good_view_store.
+Print Assumptions C01_good_view_iccma.
